@@ -1,6 +1,7 @@
 import ast
 import functools
 import inspect
+import re
 from collections.abc import Mapping, MutableMapping
 from typing import (
     TYPE_CHECKING,
@@ -143,11 +144,12 @@ def stateful_eval(
     stateful_nodes: dict[str, ast.Call] = {}
     for node in ast.walk(code):
         if _is_stateful_transform(node, env):
-            stateful_nodes[format_expr(node)] = cast(ast.Call, node)
+            stateful_nodes[_restore_aliased_names(format_expr(node), aliases)] = cast(
+                ast.Call, node
+            )
 
     # Mutate stateful nodes to pass in state from a shared dictionary.
     for name, node in stateful_nodes.items():
-        name = name.replace('"', r'\\\\"')
         if name not in state:
             state[name] = {}
         node.keywords.append(
@@ -159,12 +161,12 @@ def stateful_eval(
         node.keywords.append(
             ast.keyword(
                 "_metadata",
-                ast.parse(f'__FORMULAIC_METADATA__.get("{name}")', mode="eval").body,
+                ast.parse(f"__FORMULAIC_METADATA__.get({name!r})", mode="eval").body,
             )
         )
         node.keywords.append(
             ast.keyword(
-                "_state", ast.parse(f'__FORMULAIC_STATE__["{name}"]', mode="eval").body
+                "_state", ast.parse(f"__FORMULAIC_STATE__[{name!r}]", mode="eval").body
             )
         )
         node.keywords.append(
@@ -200,6 +202,31 @@ def stateful_eval(
             env,
         ),
     )  # nosec
+
+
+def _restore_aliased_names(expr: str, aliases: Mapping[str, str]) -> str:
+    """
+    Replace sanitized variable names in `expr` with the (backtick-quoted)
+    names they stand for.
+
+    State is keyed by call expression. Keying it by the sanitized aliases would
+    make the key depend on which other names happen to be present in the
+    environment (an alias gains a suffix when it collides), and would make
+    distinct variables that sanitize to the same alias share state.
+
+    Args:
+        expr: The expression in which to restore the original names.
+        aliases: A mapping from sanitized names to the original names.
+    """
+    for alias, name in aliases.items():
+        if alias == name:
+            continue
+        expr = re.sub(
+            rf"(?<![\w.`]){re.escape(alias)}(?![\w`])",
+            lambda _: f"`{name}`",
+            expr,
+        )
+    return expr
 
 
 def _is_stateful_transform(node: ast.AST, env: Mapping) -> bool:
